@@ -230,7 +230,7 @@ static int c20nv_corrupt(void) { return c20nv_corrupt_max(5); }
 /* the `nv` line of a command sent by the client; `d`/`n`: data written or read back */
 static void c20nv_trace_client(const char *name, int corrupt, int verified, const char *fmt, ...) {
     if (!c20nv_have_main) return;                                                   /* the session could not be opened: nothing was sent */
-    c20nv_have_main = 0; g12c_log.have_req = 0;
+    c20nv_have_main = 0;
     const Rsp *r = &c20nv_main;
     tr_begin("nv name=%s tag=%s loc=%d hw=%d ret=%u rc=%u stores=%ld hmac=%d", name, corrupt ? "auth1bad" : "auth1ok", g_locality, g_pp, r->ret, r->rc, c20nv_main_stores, verified);
     if (fmt) { va_list ap; va_start(ap, fmt); fputc(' ', g_tr); vfprintf(g_tr, fmt, ap); va_end(ap); }
@@ -263,7 +263,7 @@ static void c20nv_define_owner(Buf *b, uint32_t idx, uint32_t attrs, uint32_t si
     if (rc == 0 && sl >= 0) { c20nv_note[sl].size = size; c20nv_note[sl].attrs = attrs; c20nv_note[sl].zero_auth = 0; }
 }
 static void c20nv_write_client(Buf *b, int area_auth, uint32_t idx, uint32_t off, const uint8_t *d, uint32_t n) {
-    uint8_t auth[20]; c20nv_area_auth(auth, idx); int corrupt = c20nv_corrupt(), ver = -1;
+    uint8_t auth[20]; c20nv_area_auth(auth, idx); int corrupt = n ? c20nv_corrupt() : c20nv_corrupt_max(4), ver = -1;   /* 5 alters the last data byte */
     c20nv_have_main = 0; g12c_log.have_req = 0;
     if (area_auth) t12c_nv_write_auth(b, NULL, auth, idx, off, d, n, corrupt, &ver); else t12c_nv_write_owner(b, NULL, idx, off, d, n, corrupt, &ver);
     if (!c20nv_have_main) return;
@@ -312,7 +312,7 @@ static void c20nv_random_owner(Buf *b) {
 static const uint8_t c20ctr_auth[20] = {0xC7, 0xC7, 1, 2, 3, 4, 5, 6, 7, 8, 9, 10, 11, 12, 13, 14, 15, 16, 17, 18};
 static void c20ctr_trace(const char *name, uint32_t id, int corrupt, int ver, uint32_t value) {
     if (!c20nv_have_main) return;
-    c20nv_have_main = 0; g12c_log.have_req = 0;
+    c20nv_have_main = 0;
     const Rsp *r = &c20nv_main;
     tr_begin("ctr name=%s loc=%d ret=%u rc=%u id=%u ok=%d value=%u stores=%ld hmac=%d", name, g_locality, r->ret, r->rc, id, corrupt ? 0 : 1, value, c20nv_main_stores, ver);
     c20_trace_auth(); tr_end();
